@@ -49,10 +49,11 @@ MUTANTS = [
     M("merge-gate-only-logged", REP,
       "        if smap.needs_merge():\n            if not force:\n                raise MustForceRepairError(\"There were multiple recoverable \"",
       "        if smap.needs_merge():\n            if not force:\n                print(\"There were multiple recoverable \"", "C14.3"),
-    M("writekey-gate-dropped", REP,
+    M("force-defaults-true", NODE, "    def repair(self, check_results, force=False, monitor=None):",
+      "    def repair(self, check_results, force=True, monitor=None):", "C14.3"),
+    M("gate-benign-writekey-check-left-to-publish", REP,
       "        if not self.node.get_writekey():\n            raise RepairRequiresWritecapError(\"Sorry, repair currently requires a writecap, to set the write-enabler properly.\")\n",
-      "", "C14.3"),
-    M("force-defaults-true", REP, "    def start(self, force=False):", "    def start(self, force=True):", "C14.3"),
+      "", None),
     M("force-always-passed", NODE, "        d = r.start(force)", "        d = r.start(True)", "C14.3"),
     M("best-gate-dropped", REP,
       "        if not best_version:\n            # the file is damaged beyond repair\n            rr = RepairResults(smap)\n"
